@@ -149,6 +149,7 @@ fn run_case(ctx: &mut Ctx, scn: &Scn, sched_name: &str, tag: &str) -> Option<u64
     let panic_pc = receipts.iter().find_map(|r| match r { Receipt::Panic { pc, .. } => Some(*pc), _ => None });
     match &end.state {
         Ok(_) => {}
+        Err(e) if e == "step-limit" => { ctx.count("step-limit"); return None; }
         Err(e) => {
             ctx.count("vm-error");
             ctx.oracle_fail(&format!("vm-error-{}", e.split(|c: char| !c.is_alphanumeric()).next().unwrap_or("x")), &input_id, &e.chars().take(160).collect::<String>());
